@@ -347,8 +347,9 @@ Fixpoint lex_loop (fuel : nat) (l : list Z) : option (list item) :=
 Definition lex (sql : list Z) : option (list item) := lex_loop (length sql) sql.
 
 (* ---------------------------------------------------------------- values and their SQL literal *)
-(* OwnedValue, the variants whose rendering is modelled; a float carries, as oracle columns, what
-   Rust's f64::to_string printed for it (`shown`) *)
+(* OwnedValue, the variants whose rendering is modelled; a float carries, as an oracle column, what
+   Rust's `{:?}` formatting printed for it (`shown`: shortest round-trip digits, always with a
+   fraction or an exponent) *)
 Inductive val :=
 | VNull
 | VBool (b : bool)
@@ -396,6 +397,11 @@ Definition render (v : val) : list Z :=
   | VFloat _ shown => shown
   end.
 
+(* what substitute_parameters writes for a value: the literal, after one space when the literal
+   starts with a minus sign (so that `30-?` with -10 becomes `30- -10`, not the comment `30--10`) *)
+Definition emit (v : val) : list Z :=
+  if starts_with 45 (render v) then 32 :: render v else render v.
+
 (* ---------------------------------------------------------------- substitute_parameters *)
 Inductive sres := SOk (out : list Z) | SErr | SFuel.
 
@@ -407,7 +413,7 @@ Fixpoint subst_items (items : list item) (ps : list val) (pidx : nat) : option (
       let go (idx next : nat) :=
         match nth_error ps idx with
         | Some v =>
-            match subst_items t ps next with Some o => Some (render v ++ o) | None => None end
+            match subst_items t ps next with Some o => Some (emit v ++ o) | None => None end
         | None => None                              (* bail!("parameter index out of range") *)
         end in
       match k with
@@ -508,7 +514,7 @@ Fixpoint expand_items (items : list item) (ps : list val) (pidx : nat) : option 
   | (k, txt) :: t =>
       let go (idx next : nat) :=
         match nth_error ps idx, expand_items t ps next with
-        | Some v, Some r => match lex (render v) with Some li => Some (li ++ r) | None => None end
+        | Some v, Some r => match lex (emit v) with Some li => Some (li ++ r) | None => None end
         | _, _ => None
         end in
       match k with
@@ -544,12 +550,6 @@ Definition subst_stable (sql : list Z) (ps : list val) : bool :=
 
 
 (* ---------------------------------------------------------------- recorded deviations of single values *)
-(* a float whose Display text is read back as an integer literal (`1`, `-0`, `1000...0`) *)
-Definition float_shown_as_int (v : val) : bool :=
-  match v with
-  | VFloat _ shown => match read_literal shown with LInt _ | LIntOverflow => true | _ => false end
-  | _ => false
-  end.
 Definition is_int_min (v : val) : bool := match v with VInt z => z =? i64_min | _ => false end.
 
 
@@ -564,10 +564,8 @@ Definition lit_of (v : val) : lit_val :=
   | VFloat _ _ => LOther
   end.
 
-(* finding class of a single value on the text-substitution path: 6 = i64::MIN (its literal does not
-   parse), 5 = a float printed like an integer; 0 = none *)
-Definition val_class (v : val) : Z :=
-  if is_int_min v then 6 else if float_shown_as_int v then 5 else 0.
+(* finding class of a single value: 6 = i64::MIN (eval_literal cannot read its literal); 0 = none *)
+Definition val_class (v : val) : Z := if is_int_min v then 6 else 0.
 
 Definition is_float (v : val) : bool := match v with VFloat _ _ => true | _ => false end.
 Definition byte_ok (x : Z) : bool := (0 <=? x) && (x <? 256).
@@ -621,12 +619,12 @@ Fixpoint isolated (prev_ok : bool) (items : list item) : bool :=
       else isolated (match txt with [c] => is_sep_before c | _ => false end) t
   end.
 
-(* the tokens of a literal *)
+(* the items substitute_parameters' output for a value is read as (a negative number: space, minus, digits) *)
 Definition lit_items (v : val) : list item :=
   match v with
   | VNull => [(KId, t_null)]
   | VBool b => [(KId, if b then t_true else t_false)]
-  | VInt z => if z <? 0 then [(KMinus, [45]); (KInt, show_nat (- z))] else [(KInt, show_nat z)]
+  | VInt z => if z <? 0 then [(KWs, [32]); (KMinus, [45]); (KInt, show_nat (- z))] else [(KInt, show_nat z)]
   | VText s => [(KStr, render (VText s))]
   | VBlob b => [(KHex, render (VBlob b))]
   | VFloat _ _ => []
